@@ -398,6 +398,8 @@ class Check:
         if not found_input and sum(1 for v in self.violations if not v[2]) >= 40:
             return          # enough divergences recorded; keep searching for a concrete failing input
         self.violations.append((what, replay, found_input))
+        if found_input and self.n_found() >= ENOUGH:
+            raise EnoughFound()
 
     def n_found(self):
         """violations with a concrete failing input (divergences of the correspondence do not stop the search)"""
@@ -484,6 +486,42 @@ def load_known(pid):
 def rng_for(seed, *salt):
     h = hashlib.sha256(("%d|" % seed + "|".join(map(str, salt))).encode()).digest()
     return random.Random(int.from_bytes(h[:8], "little"))
+
+
+ENOUGH = 8
+
+
+class EnoughFound(BaseException):
+    """the check has that many concrete failing inputs: further exploration adds nothing to the verdict (and on a tree
+    that is badly broken every further case may be slow)"""
+
+
+class CallTimeout(Exception):
+    """a call into the library did not return within the time a call of that size can possibly need"""
+
+
+import contextlib
+import signal
+import threading
+
+
+@contextlib.contextmanager
+def time_limit(seconds):
+    """bounds one call into the library (decoders loop over counts they read from the stream: on a stream that is not
+    what they expect they may run practically for ever); a call that is cut off counts as having raised CallTimeout"""
+    if threading.current_thread() is not threading.main_thread() or signal.getitimer(signal.ITIMER_REAL)[0] > 0:
+        yield
+        return
+
+    def handler(signum, frame):
+        raise CallTimeout("the call did not return within %d s" % seconds)
+    old = signal.signal(signal.SIGALRM, handler)
+    signal.setitimer(signal.ITIMER_REAL, seconds)
+    try:
+        yield
+    finally:
+        signal.setitimer(signal.ITIMER_REAL, 0)
+        signal.signal(signal.SIGALRM, old)
 
 
 def exc_info(e):
